@@ -11,6 +11,8 @@ package main
 //  (D) robustness: random input / options / sizes / keys / mouse / actions / resizes / children; no panic text,
 //      GET keeps answering, exit leaves everything clean
 //  (F) the --tmux popup proxy under a private tmux server: see c14tmux.go
+//  (G) commands that cannot be started (shell missing / not executable, command line over the kernel's limit): the
+//      reader hand-shake through a hook and whole sessions: see c14nostart.go
 import (
 	"bytes"
 	"encoding/json"
@@ -50,6 +52,16 @@ type c14Case struct {
 	Shape    string  `json:"shape,omitempty"`    // kids: shape of the child command (plain pipeline list subshell ...)
 	Child    string  `json:"child,omitempty"`    // kids: which child / which trigger
 	Tmux     *c14Tmux `json:"tmux,omitempty"`    // tmux: the --tmux popup proxy stream (c14tmux.go)
+	// nostart / ready: commands that cannot be started (c14nostart.go)
+	NoSync   bool     `json:"nosync,omitempty"`   // --listen without the first Sync (Sync needs a working shell)
+	Env      []string `json:"env,omitempty"`      // extra environment (SHELL=..., FZF_DEFAULT_COMMAND=...)
+	StdinTTY bool     `json:"stdintty,omitempty"` // standard input is the terminal: the list comes from the default command
+	Items    int      `json:"items,omitempty"`    // the list is `Items` generated lines (when Input is empty) ...
+	ItemW    int      `json:"itemw,omitempty"`    // ... each padded to this width
+	Via      string   `json:"via,omitempty"`      // which command cannot be started: reload reload-sync start-reload default-command preview ...
+	Fail     string   `json:"fail,omitempty"`     // why: noent notinpath noexec dir shellenv e2big-plus e2big-line e2big-query | ok cmdfails
+	Probe    []string `json:"probe,omitempty"`    // nostart: what is asked of fzf afterwards (search reload)
+	Ready    *c14Ready `json:"ready,omitempty"`   // ready: one reader run through the hook
 }
 
 type c14Step struct {
@@ -147,7 +159,8 @@ func (r *c14Run) kids() []string {
 func c14Start(c *Ctx, cs c14Case, id string) (*c14Run, error) {
 	mark := "C14MARK=" + id
 	cols, rows := cs.Cols, cs.Rows
-	s, err := StartSession(c, SessionOpts{Args: cs.Args, Stdin: append([]byte{}, cs.Input...), Cols: cols, Rows: rows, Env: []string{mark}, NoListen: cs.NoListen})
+	s, err := StartSession(c, SessionOpts{Args: cs.Args, Stdin: append([]byte{}, c14InputOf(cs)...), Cols: cols, Rows: rows, Env: append([]string{mark}, cs.Env...),
+		NoListen: cs.NoListen, NoSync: cs.NoSync, StdinTTY: cs.StdinTTY})
 	if err != nil {
 		return nil, err
 	}
@@ -1134,6 +1147,10 @@ func c14Run1(c *Ctx, cs c14Case, id string) {
 		c14Robust(c, cs, id)
 	case "tmux":
 		c14TmuxSession(c, cs, id)
+	case "nostart":
+		c14NoStart(c, cs, id)
+	case "ready":
+		c14ReadyRun(c, cs)
 	}
 }
 
@@ -1145,7 +1162,14 @@ func c14Pool(c *Ctx, cases []c14Case, par int) {
 		go func() {
 			defer wg.Done()
 			for i := range ch {
+				t0 := time.Now()
 				c14Run1(c, cases[i], fmt.Sprintf("%d_%d_%d", os.Getpid(), c.Seed, i))
+				if f := os.Getenv("C14_TIMING"); f != "" { // debugging aid: wall time per session case
+					if fh, err := os.OpenFile(f, os.O_APPEND|os.O_CREATE|os.O_WRONLY, 0644); err == nil {
+						fmt.Fprintf(fh, "%.2f %s %s %s %s\n", time.Since(t0).Seconds(), cases[i].Kind, cases[i].Via, cases[i].Fail, cases[i].Exit)
+						fh.Close()
+					}
+				}
 			}
 		}()
 	}
@@ -1219,6 +1243,18 @@ func runC14(c *Ctx) {
 	for i := 0; i < nr; i++ {
 		cases = append(cases, c14GenRobust(c.Rng))
 	}
+	// (G) commands that cannot be started: the reader hand-shake through the hook, and sessions (c14nostart.go)
+	ng := c.N(80, 2000)
+	for i := 0; i < ng; i++ {
+		cases = append(cases, c14GenReady(c.Rng, i))
+	}
+	// (its sessions are generated here and run first: the fixed 10 s wait of a failing become overlaps with the rest)
+	nn := c.N(60, 900)
+	nsCases := []c14Case{}
+	for i := 0; i < nn; i++ {
+		nsCases = append(nsCases, c14GenNoStart(c.Rng, i))
+	}
+	cases = append(nsCases, cases...)
 	// (F) the --tmux popup proxy under a private tmux server; generated last (the other streams keep their cases per
 	// seed) and run first (their fixed waits overlap with the rest)
 	ntm := c.N(28, 420)
